@@ -124,6 +124,34 @@ func (e *env) cleanup(tmpl Rec, call func() (*protocol.LockResultCommand, error)
 	}
 }
 
+// lockAPI: the four entry points every lock-shaped primitive offers. One acquire/release cycle in
+// three goes through the WithData pair (nil payload half of the time), so that both copies of each
+// method are exercised; the payload has no bearing on who may hold the lock.
+type lockAPI interface {
+	Lock() (*protocol.LockResultCommand, error)
+	Unlock() (*protocol.LockResultCommand, error)
+	LockWithData(*protocol.LockCommandData) (*protocol.LockResultCommand, error)
+	UnlockWithData(*protocol.LockCommandData) (*protocol.LockResultCommand, error)
+}
+
+type lockCall = func() (*protocol.LockResultCommand, error)
+
+func pickData(rng *rand.Rand) *protocol.LockCommandData {
+	if rng.Intn(2) == 0 {
+		return nil
+	}
+	return protocol.NewLockCommandDataSetString(fmt.Sprintf("v%d", rng.Intn(1000)))
+}
+
+func pickAPI(rng *rand.Rand, l lockAPI) (lockCall, lockCall) {
+	if rng.Intn(3) != 0 {
+		return l.Lock, l.Unlock
+	}
+	ld, ud := pickData(rng), pickData(rng)
+	return func() (*protocol.LockResultCommand, error) { return l.LockWithData(ld) },
+		func() (*protocol.LockResultCommand, error) { return l.UnlockWithData(ud) }
+}
+
 func (e *env) run() *sync.WaitGroup {
 	wg := &sync.WaitGroup{}
 	var body func(g int)
@@ -168,17 +196,18 @@ func (e *env) runLock(g int) {
 			l, ks = db.Lock(k, e.timeout, e.expried), keyStr(k)
 		}
 		t := Rec{G: g, Key: ks, Round: ep}
+		lk, ul := pickAPI(rng, l)
 		t.Op = "lock"
-		a := e.do(t, l.Lock)
+		a := e.do(t, lk)
 		t.Op = "unlock"
 		switch {
 		case a.Result == resOK:
 			e.hold(rng)
-			if u := e.do(t, l.Unlock); u.Result == resTransport {
-				e.cleanup(t, l.Unlock)
+			if u := e.do(t, ul); u.Result == resTransport {
+				e.cleanup(t, ul)
 			}
 		case a.Result == resTransport:
-			e.cleanup(t, l.Unlock) // we do not know whether it was granted
+			e.cleanup(t, ul) // we do not know whether it was granted
 		default:
 			e.refused()
 		}
@@ -201,6 +230,7 @@ func (e *env) runRLock(g int) {
 			l, ks = db.RLock(k, e.timeout, e.expried), keyStr(k)
 		}
 		nest++
+		lk, ul := pickAPI(rng, l)
 		d := 1 + rng.Intn(e.N)
 		depth := 0
 		tainted := false
@@ -209,7 +239,7 @@ func (e *env) runRLock(g int) {
 			// the record carries the depth after the op; it is only known once the op returned, so
 			// do() is given the optimistic value and it is corrected on failure
 			t.Depth = depth + 1
-			a := e.do(t, l.Lock)
+			a := e.do(t, lk)
 			if a.Result == resOK {
 				depth++
 				continue
@@ -231,7 +261,7 @@ func (e *env) runRLock(g int) {
 		if !tainted {
 			for depth > 0 {
 				t.Depth = depth - 1
-				u := e.do(t, l.Unlock)
+				u := e.do(t, ul)
 				if u.Result == resTransport {
 					tainted = true
 					break
@@ -249,7 +279,7 @@ func (e *env) runRLock(g int) {
 			t.Depth = 0
 			limit := e.deadline.Add(3 * time.Second)
 			for attempt := 0; attempt < 200 && !e.stopped() && time.Now().Before(limit); attempt++ {
-				u := e.do(t, l.Unlock)
+				u := e.do(t, ul)
 				if u.Result == resTransport {
 					e.backoff()
 					continue
@@ -279,12 +309,18 @@ func (e *env) runRWLock(g int) {
 		t := Rec{G: g, Key: ks, Round: ep}
 		if rng.Intn(10) < 7 {
 			t.Op = "rlock"
-			a := e.do(t, l.RLock)
+			rl, ru := lockCall(l.RLock), lockCall(l.RUnlock)
+			if rng.Intn(3) == 0 {
+				ld, ud := pickData(rng), pickData(rng)
+				rl = func() (*protocol.LockResultCommand, error) { return l.RLockWithData(ld) }
+				ru = func() (*protocol.LockResultCommand, error) { return l.RUnlockWithData(ud) }
+			}
+			a := e.do(t, rl)
 			t.Op = "runlock"
 			if a.Result == resOK {
 				e.hold(rng)
 				// RUnlock pops the reader lock from the object: it cannot be retried
-				if u := e.do(t, l.RUnlock); u.Result == resTransport {
+				if u := e.do(t, ru); u.Result == resTransport {
 					e.backoff()
 				}
 			} else if a.Result == resTransport {
@@ -294,17 +330,18 @@ func (e *env) runRWLock(g int) {
 			}
 			continue
 		}
+		lk, ul := pickAPI(rng, l)
 		t.Op = "wlock"
-		a := e.do(t, l.Lock)
+		a := e.do(t, lk)
 		t.Op = "wunlock"
 		switch {
 		case a.Result == resOK:
 			e.hold(rng)
-			if u := e.do(t, l.Unlock); u.Result == resTransport {
-				e.cleanup(t, l.Unlock)
+			if u := e.do(t, ul); u.Result == resTransport {
+				e.cleanup(t, ul)
 			}
 		case a.Result == resTransport:
-			e.cleanup(t, l.Unlock)
+			e.cleanup(t, ul)
 		default:
 			e.refused()
 		}
@@ -445,11 +482,12 @@ func (e *env) prioRunner() func(g int) {
 			k := e.key(round)
 			l := db.PriorityLock(k, 0, e.timeout, e.expried)
 			t := Rec{G: 0, Key: keyStr(k), Round: round, Holder: true, Op: "lock"}
-			a := e.do(t, l.Lock)
+			lk, ul := pickAPI(e.rng(0, int64(round)), l)
+			a := e.do(t, lk)
 			t.Op = "unlock"
 			if a.Result != resOK {
 				if a.Result == resTransport {
-					e.cleanup(t, l.Unlock)
+					e.cleanup(t, ul)
 				} else {
 					e.refused()
 				}
@@ -462,8 +500,8 @@ func (e *env) prioRunner() func(g int) {
 				chans[i] <- roundMsg{round: round, t0: t0, wg: wg}
 			}
 			time.Sleep(time.Until(t0.Add(holdTime)))
-			if u := e.do(t, l.Unlock); u.Result == resTransport {
-				e.cleanup(t, l.Unlock)
+			if u := e.do(t, ul); u.Result == resTransport {
+				e.cleanup(t, ul)
 			}
 			wg.Wait()
 		}
@@ -483,16 +521,17 @@ func (e *env) prioRunner() func(g int) {
 			l := db.PriorityLock(k, uint8(plan.prio[g]), e.timeout, e.expried)
 			time.Sleep(time.Until(msg.t0.Add(plan.offset[g])))
 			t := Rec{G: g, Key: keyStr(k), Round: msg.round, Prio: plan.prio[g], Late: plan.late[g], Op: "lock"}
-			a := e.do(t, l.Lock)
+			lk, ul := pickAPI(e.rng(g, int64(msg.round)), l)
+			a := e.do(t, lk)
 			t.Op = "unlock"
 			switch {
 			case a.Result == resOK:
 				time.Sleep(waiterHold)
-				if u := e.do(t, l.Unlock); u.Result == resTransport {
-					e.cleanup(t, l.Unlock)
+				if u := e.do(t, ul); u.Result == resTransport {
+					e.cleanup(t, ul)
 				}
 			case a.Result == resTransport:
-				e.cleanup(t, l.Unlock)
+				e.cleanup(t, ul)
 			}
 			msg.wg.Done()
 		}
